@@ -482,6 +482,31 @@ def registered_extra_cases(which):
                 emit("ClaimsSet", enc(M((I(lab), v))), "claims")
     return out
 
+
+def rebuilt_cases(which):
+    """a received message whose OWN protected header is then serialized afresh (retained bytes cleared, harness helpers
+    `rebuilt.*`): counter-signatures nested inside it still contribute their own retained bytes, whatever their spelling.
+    The outer header is sent in the form the crate itself emits, so the bytes handed over equal those of the message as
+    received"""
+    out = []
+    for inner in (b"", b"\xa0", b"\xbf\xff", b"\xb8\x00", b"\xa1\x18\x01\x38\x06", b"\xa2\x04\x41\x6b\x01\x26"):
+        for form in ("single", "list"):
+            cs = A(B(inner), M(), B(b"cs"))
+            outer = enc(M((I(1), I(-7)), (I(7), cs if form == "single" else A(cs, A(B(b""), M(), B(b"c2"))))))
+            for pre in ("", "rebuilt."):
+                if "sign" in which:
+                    m = enc(A(B(outer), M(), B(b"pl"), B(b"sg")))
+                    out.append(case("helperhex", pre + "sign1.tbs_data", m, b"aad", fam="rebuilt-twins:sign1", impl_only=True, expect="ok " + pyspec.sig_structure("CoseSign1", outer, None, b"aad", b"pl").hex()))
+                if "mac" in which:
+                    m = enc(A(B(outer), M(), B(b"pl"), B(b"tg")))
+                    out.append(case("helperhex", pre + "mac0.verify_tag", m, b"aad", fam="rebuilt-twins:mac0", impl_only=True, expect="ok 7467 " + pyspec.mac_structure("CoseMac0", outer, b"aad", b"pl").hex()))
+                if "enc" in which:
+                    m = enc(A(B(outer), M(), B(b"ct")))
+                    out.append(case("helperhex", pre + "encrypt0.decrypt", m, b"aad", fam="rebuilt-twins:encrypt0", impl_only=True, expect="ok 6374 " + pyspec.enc_structure("CoseEncrypt0", outer, b"aad").hex()))
+                    m = enc(A(B(outer), M(), B(b"ct")))
+                    out.append(case("helperhex", pre + "recipient.decrypt", m, tstr("EncRecipient"), b"aad", fam="rebuilt-twins:recipient", impl_only=True, expect="ok 6374 " + pyspec.enc_structure("EncRecipient", outer, b"aad").hex()))
+    return out
+
 # ================================================================= C16
 def label_palette():
     ints = sorted(set(x for x in LATTICE if -2**63 <= x < 2**63) | {2, 10, 22, 25, 100, 1000, -2, -10, -23, -26, -100, -1000,
@@ -633,6 +658,9 @@ def cases_C17(rng, tier):
                  ("sign-alg-with-signers", "CoseSign", lambda x: b"\x84" + enc(B(b"\xa1\x01" + x)) + b"\xa0\x41\x70\x82\x83\x40\xa0\x40\x83\x40\xa0\x40"),
                  ("sign-alg-no-signers", "CoseSign", lambda x: b"\x84\x40\xa1\x01" + x + b"\xf6\x80"),
                  ("encrypt-alg-no-recipients", "CoseEncrypt", lambda x: b"\x84\x40\xa1\x01" + x + b"\xf6\x80"),
+                 ("key-op-after-all-registered", "CoseKey", lambda x: b"\xa2\x01\x04\x04\x8b\x01\x02\x03\x04\x05\x06\x07\x08\x09\x0a" + x),
+                 ("key-op-among-texts", "CoseKey", lambda x: b"\xa2\x01\x04\x04\x8c" + b"".join(b"\x62\x6f" + bytes([0x61 + i]) for i in range(11)) + x),
+                 ("crit-after-many", "Header", lambda x: b"\xa1\x02\x8c\x01\x02\x03\x04\x05\x06\x07" + b"".join(b"\x61" + bytes([0x61 + i]) for i in range(4)) + x),
                  ("supp-pub-prot-alg", "SuppPubInfo", lambda x: b"\x82\x18\x80" + enc(B(b"\xa1\x01" + x))),
                  ("supp-pub-prot-crit", "SuppPubInfo", lambda x: b"\x83\x18\x80" + enc(B(b"\xa1\x02\x81" + x)) + b"\x41\x6f"),
                  ("supp-pub-prot-ct", "SuppPubInfo", lambda x: b"\x82\x18\x80" + enc(B(b"\xa1\x03" + x))),
@@ -1145,6 +1173,9 @@ def single_field_headers():
             # the private-use variant of an in-memory algorithm holds whatever integer it was given
             d_header(alg=d_reg(0, -65537)), d_header(alg=d_reg(0, -2**63)), d_header(alg=d_reg(0, -65536)), d_header(alg=d_reg(0, -100)),
             d_header(alg=d_reg(0, 1000)), d_header(alg=d_reg(0, 2**63 - 1)), d_header(alg=d_reg(0, 8)),
+            # in-memory text values are emitted exactly as given, blanks included
+            d_header(ctype=d_reg(2, " a/b")), d_header(ctype=d_reg(2, "a/b ")), d_header(ctype=d_reg(2, "\ta/b\n")), d_header(crit=[d_reg(2, " x ")]), d_header(alg=d_reg(2, " a ")),
+            d_header(rest=[(T(" x "), I(1))]),
             d_header(rest=[(I(300), I(1)), (I(-1), I(2)), (T("b"), I(3)), (I(9), I(4)), (T("a"), I(5))])]
 
 def single_field_prots():
@@ -1336,6 +1367,7 @@ def cases_C03(rng, tier):
     out += field_population_cases(("sign",))
     out += edited_twins(out)
     out += override_cases(("sign",))
+    out += rebuilt_cases(("sign",))
     return out
 
 def post_injective(cases, impl):
@@ -1428,6 +1460,7 @@ def cases_C04(rng, tier):
     out += field_population_cases(("mac",))
     out += edited_twins(out)
     out += override_cases(("mac",))
+    out += rebuilt_cases(("mac",))
     return out
 
 def cases_C05(rng, tier):
@@ -1537,6 +1570,7 @@ def cases_C05(rng, tier):
     out += field_population_cases(("enc",))
     out += edited_twins(out)
     out += override_cases(("enc",))
+    out += rebuilt_cases(("enc",))
     return out
 
 
@@ -1965,7 +1999,8 @@ def cases_C11(rng, tier):
     # omission rules field by field: a protected header holding exactly one populated field
     # (a private-use algorithm variant holding a non-private integer is not a well-formed value: it encodes, but C11's
     # round trip is promised for well-formed values only)
-    singles = [h for h in single_field_headers() if not (h[1][0] != NULL and h[1][0][1][0] == I(0) and h[1][0][1][1][1] >= -65536)]
+    singles = [h for h in single_field_headers() if not (h[1][0] != NULL and h[1][0][1][0] == I(0) and h[1][0][1][1][1] >= -65536)
+               and not (h[1][2] != NULL and h[1][2][1][0] == I(2) and h[1][2][1][1][1].strip() != h[1][2][1][1][1])]
     for h in singles:
         for ty in MSG_TYPES:
             d = gen_desc_msg(rng, ty)
@@ -1999,6 +2034,19 @@ def cases_C11(rng, tier):
             d = ('a', [d_protected(None, d_header(kid=b"pk")), d_header(alg=d_reg(1, v))] + tail)
             out.append(case("enc", ty, enc(d), fam="alg-sweep:" + ty, expect="ok " + enc(pyspec.wire_value(ty, d)).hex()))
     out += [c for c in registered_extra_cases(("Header", "CoseKey", "ClaimsSet")) if c["line"].startswith("rt ")]
+    # lists holding IDENTICAL entries (a list is not a set): every entry is emitted, in place
+    k1 = gen_desc_key(rng, extra_labels=[I(-1)]); k2 = gen_desc_key(rng, extra_labels=[I(-2)])
+    for ks in ([k1, k1], [k1, k1, k2], [k2, k1, k1], [k1, k2, k1], [k1, k1, k1]):
+        d = ('a', ks)
+        out.append(case("encdec", "CoseKeySet", enc(d), fam="twin-entries:CoseKeySet", expect_re=r"ok %s ok .*" % enc(pyspec.wire_value("CoseKeySet", d)).hex()))
+    sg = d_signature(d_protected(None, d_header(alg=d_reg(1, -7))), d_header(kid=b"k"), b"s"); rc = A(d_protected(None, D_EMPTY_HEADER), d_header(kid=b"k"), NULL, ('a', []))
+    for n in (2, 3):
+        d = ('a', [d_protected(None, D_EMPTY_HEADER), D_EMPTY_HEADER, NULL, ('a', [sg] * n)])
+        out.append(case("enc", "CoseSign", enc(d), fam="twin-entries:CoseSign", expect="ok " + enc(pyspec.wire_value("CoseSign", d)).hex()))
+        d = ('a', [d_protected(None, D_EMPTY_HEADER), D_EMPTY_HEADER, NULL, ('a', [rc] * n)])
+        out.append(case("enc", "CoseEncrypt", enc(d), fam="twin-entries:CoseEncrypt", expect="ok " + enc(pyspec.wire_value("CoseEncrypt", d)).hex()))
+        h = d_header(csigs=[d_signature(d_protected(None, D_EMPTY_HEADER), D_EMPTY_HEADER, b"s")] * n)
+        out.append(case("enc", "Header", enc(h), fam="twin-entries:countersignatures", expect="ok " + enc(pyspec.header_map(h)).hex()))
     return out
 
 # ================================================================= C12
@@ -2755,6 +2803,7 @@ def cases_C02(rng, tier):
                 out.append(case("build", "CoseSign", enc(('a', ops)), fam="signer-template-retained:" + opn, check=chk))
                 out.append(case("buildrt", "CoseSign", enc(('a', ops)), "-", *((b"\x00", b"pl", b"aad") if det else (b"\x00", b"aad")), fam="signer-template-retained-rt:" + opn,
                                 check=(lambda c, o, w=tbs: None if o.endswith(" %s %s" % ((b"kk" + w).hex(), w.hex())) else "verifier did not receive the bytes that were signed")))
+    out += rebuilt_cases(("sign", "mac", "enc"))
     return out
 
 def post_C02(cases, impl):
